@@ -365,6 +365,49 @@ def register(op):
         fresh()
         return res
 
+    @op("c11_macro_caller_args")
+    def _(arg):
+        """A macrostate keeps the set of complexes it was made from whatever the caller does with HIS container afterwards
+        (its length is the number of members, `complexes` lists them): arg = [specs, members, named, k, form, steps];
+        returns [first observation, problems]"""
+        import collections
+        specs, members, named, k, form, steps = arg
+        fresh()
+        class Sub(list): pass
+        objs = [cplx(s, name=f"X{i}") for i, s in enumerate(specs)]
+        orig = [objs[i] for i in members]
+        buf = {"sublist": Sub, "deque": collections.deque}.get(form, list)(orig)
+        passed = tuple(buf) if form == "tuple" else buf
+        nm = max(orig, key=lambda c: c.canonical_form).name if named else None
+        first = MAC[k](passed, name=nm) if nm else MAC[k](passed)
+        observe = lambda m: [m.name, mkey(m), sorted(x.name for x in m.complexes), len(m), m.representative.name]
+        obs0 = observe(first)
+        problems = []
+        if obs0[2] != sorted(x.name for x in orig) or obs0[3] != len(orig):
+            problems.append([-1, None, "members", obs0[2:4], [sorted(x.name for x in orig), len(orig)]])
+        if len(buf) != len(orig) or any(x is not y for x, y in zip(buf, orig)):
+            problems.append([-1, None, "caller-container-changed", [x.name for x in buf], [x.name for x in orig]])
+        for n, (t, action, param) in enumerate(steps):
+            try:
+                if action == "clear": buf.clear()
+                elif action == "append": buf.append(objs[param])
+                elif action == "pop": buf.pop()
+                elif action == "pop0": del buf[0]
+                elif action == "reverse": buf.reverse()
+                elif action == "replace": buf[param[0] % len(buf)] = objs[param[1]]
+                elif action == "refill": buf.clear(); buf.extend(objs[i] for i in param)
+                elif action == "sort-desc": buf.sort(key=lambda o: o.canonical_form, reverse=True)
+            except Exception:
+                pass
+            now = observe(first)
+            if now != obs0:
+                problems.append([n, [t, action, param], "changed-after-caller-edit", now, obs0])
+                break
+        res = [obs0, problems]
+        del first, objs, orig, buf, passed
+        fresh()
+        return res
+
     @op("c11_caller_args")
     def _(arg):
         """A reaction keeps the multisets it was made from, whatever the caller does with HIS argument containers afterwards.
